@@ -287,6 +287,7 @@ Inductive event :=
 | ECut (name : list N) (ns : N) (ds glue : option N)   (* ...make_zone_cut *)
 | ERegular (name : list N)             (* root.update_child(..)*.make_regular() *)
 | ECommit                          (* writer.commit(false); the root handle is kept aside *)
+| ECommitBump                      (* writer.commit(true): bump the SOA serial unless the writer set a new SOA *)
 | EDrop                            (* drop(writer); the root handle is kept aside *)
 | EStale (e : event).              (* data operation e through the handle kept aside *)
 
@@ -318,6 +319,25 @@ Definition data_op (s : zstate) (v : N) (e : event) : zstate :=
   | _ => s
   end.
 
+(* WriteZone::commit: publish_new_zone_version *)
+Definition publish (s : zstate) (w : writer) : zstate :=
+  mkz (if publish_sets_current_to_new then w_new w else z_cur s) (z_apex s) (z_nodes s)
+      (Some (mkw (if publish_advances_new_version then ver_next (w_new w) else w_new w)
+                 (if publish_clears_dirty then false else w_dirty w) false))
+      (if w_open w then Some (w_new w) else z_handle s).
+
+(* commit(true): if the published version has a SOA and the new version has none
+   or the same one, a SOA with serial + 1 is stored at the new version
+   (an SOA RRset is identified with its serial here; serial 0 is not used) *)
+Definition bump_soa (s : zstate) (w : writer) : zstate :=
+  match rs_get (z_apex s) 6 (z_cur s) with
+  | Some old =>
+      if (match rs_get (z_apex s) 6 (w_new w) with None => true | Some new => new =? old end)
+      then set_apex s (rs_update (z_apex s) 6 (ver_next old) (w_new w))
+      else s
+  | None => s
+  end.
+
 Definition is_data (e : event) : bool :=
   match e with
   | EUpdate _ _ _ | ERemove _ _ | ETouch _ | ERemoveAll | ERemoveAllAt _ | ECname _ _ | ECut _ _ _ _ | ERegular _ => true
@@ -342,11 +362,12 @@ Definition step (s : zstate) (e : event) : zstate :=
       end
   | ECommit =>
       match z_writer s with
-      | Some w =>
-          mkz (if publish_sets_current_to_new then w_new w else z_cur s) (z_apex s) (z_nodes s)
-              (Some (mkw (if publish_advances_new_version then ver_next (w_new w) else w_new w)
-                         (if publish_clears_dirty then false else w_dirty w) false))
-              (if w_open w then Some (w_new w) else z_handle s)
+      | Some w => publish s w
+      | None => s
+      end
+  | ECommitBump =>
+      match z_writer s with
+      | Some w => publish (if commit_bumps_soa then bump_soa s w else s) w
       | None => s
       end
   | EDrop =>
